@@ -197,7 +197,38 @@ pub fn verif_dir() -> PathBuf {
 }
 
 /// token-level mutations that often still compile: swap an operator, perturb a number literal
+/// does some `fn name(..)` / `letrec name` of the text mention its own name again (recursion)?
+pub fn has_self_recursion(src: &str) -> bool {
+    for kw in ["fn ", "letrec "] {
+        for (i, _) in src.match_indices(kw) {
+            let rest = &src[i + kw.len()..];
+            let name: String = rest.chars().take_while(|c| c.is_alphanumeric() || *c == '_').collect();
+            if name.is_empty() {
+                continue;
+            }
+            let call = format!("{name}(");
+            if src.matches(&call).count() >= 2 || (kw == "letrec " && src.matches(&call).count() >= 1) {
+                // fn: its declaration plus at least one call; the call may be the recursive one
+                let decl_end = i + kw.len() + name.len();
+                if src[decl_end..].contains(&call) && src[decl_end..].find(&call).is_some_and(|p| {
+                    // inside the function's own body: before the next top-level `fn `
+                    let next_fn = src[decl_end..].find("\nfn ").unwrap_or(usize::MAX);
+                    p < next_fn
+                }) {
+                    return true;
+                }
+            }
+        }
+    }
+    false
+}
+
+/// Operator / constant mutations. Texts with a recursive function are returned unchanged: turning
+/// `n - 1` into `n + 1` there makes the source-level meaning diverge (stated exclusion, DESIGN 3a).
 pub fn mutate_source(src: &str, rng: &mut Rng) -> String {
+    if has_self_recursion(src) {
+        return src.to_string();
+    }
     let bytes = src.as_bytes();
     let mut sites: Vec<(usize, usize, String)> = vec![];
     let mut i = 0;
